@@ -30,6 +30,13 @@ def run_one(m, repo, scratch_root, run_tests):
         if os.path.exists(kf):
             shutil.copy(kf, vd)
         shutil.copy(os.path.join(VERIF, "properties.jsonl"), vd)
+        if m.get("base"):
+            # a behaviour-preserving refactoring (benign/<id>/patch.diff) applied first: the mutant is made on top of it
+            bp = subprocess.run(["patch", "-p1", "-s", "--no-backup-if-mismatch", "-i", os.path.join(VERIF, m["base"])], cwd=d, capture_output=True, text=True)
+            if bp.returncode != 0:
+                res["status"] = "stale"
+                res["detail"] = "base patch %s does not apply" % m["base"]
+                return res
         for e in m["edits"]:
             p = os.path.join(d, e["file"])
             s = open(p).read()
